@@ -10,11 +10,16 @@ ABSORB_WHY = {
 }
 
 
+def _stores(it):
+    """Assignments, and `mem::replace(&mut place, v)` / `mem::swap` which store v into the place just the same."""
+    return list(it.writes.items()) + [(k, w) for k, w in it.muts.items() if w.kind == 'replace']
+
+
 def param_roles(facts, body):
     """param index -> self field it is written to or compared with."""
     it = interp(facts, body)
     roles = {}
-    for w in it.writes.values():
+    for _, w in _stores(it):
         tgt = loc_target(it, w.loc)
         v = versionless(w.val)
         if tgt and tgt[0] == 1 and len(tgt[1]) == 1 and v[0] == 'param':
@@ -55,7 +60,7 @@ def _lww_assign_clause(facts, body):
     apply written out, or inlined).  Returns (errors, details, found)."""
     it = interp(facts, body)
     sites = {}
-    for (bb, si), w in it.writes.items():
+    for (bb, si), w in _stores(it):
         tgt = loc_target(it, w.loc)
         v = versionless(w.val)
         if not tgt or tgt[0] != 1:
